@@ -109,7 +109,7 @@ def run_progs(rep, cases):
     import copy
     import pandera.config as cfgmod
     ans = run_driver("C18", [dict(c, mode="prog") for c in cases])
-    saved = copy.copy(cfgmod._CONTEXT_CONFIG)
+    saved = copy.copy(cfgmod.get_config_context(validation_depth_default=None))
     glob_before = copy.copy(cfgmod.CONFIG)
     try:
         for c, a in zip(cases, ans):
